@@ -29,7 +29,7 @@
    the u-integral with the integral over R^3, (iii) at fixed u the three one-dimensional Gaussian
    integrals — which ARE bridge (B1) (overlap_1d_integral with a third Gaussian factor, combined
    exponent p+u^2) — and (iv) the substitution t^2 = u^2/(p+u^2).  Step (iii) is covered by
-   Gauss/GaussInt.v; (i), (ii), (iv) are not formalised.  The right-hand side of that identity is
+   Gauss/GaussInt.v; (i), (iii), (iv) are proved in Gauss/CoulombBridge.v; only the exchange (ii) remains trusted.  The right-hand side of that identity is
    exactly the right-hand side of [prim_val_is_t_integral].
    Assumptions: the classical real numbers of the standard library only. *)
 From Coq Require Import Reals Lra Lia List.
